@@ -356,10 +356,22 @@ func (m *Manager) GetStats() (*Stats, error) {
 	}
 
 	var key uint32 = 0
-	var stats Stats
 
-	if err := m.stats.Lookup(&key, &stats); err != nil {
+	// antispoof_stats is a per-CPU array: a lookup returns one value per
+	// possible CPU, which have to be added up.
+	var perCPU []Stats
+	if err := m.stats.Lookup(&key, &perCPU); err != nil {
 		return nil, err
+	}
+
+	var stats Stats
+	for i := range perCPU {
+		stats.PacketsAllowed += perCPU[i].PacketsAllowed
+		stats.PacketsDropped += perCPU[i].PacketsDropped
+		stats.PacketsLogged += perCPU[i].PacketsLogged
+		stats.IPv4Violations += perCPU[i].IPv4Violations
+		stats.IPv6Violations += perCPU[i].IPv6Violations
+		stats.UnknownMAC += perCPU[i].UnknownMAC
 	}
 
 	return &stats, nil
